@@ -171,7 +171,11 @@ class Scheduler:
         if self.cluster.check_ingest_capacity(pipeline_demand, max_ingest):
             if self.provision_ingest + pipeline_demand <= max_ingest:
                 cluster_capacity = True
-                self.provision_ingest += pipeline_demand
+                # Only an observation that is actually admitted holds
+                # ingest machines; a refusal by the buffer must not
+                # consume the ingest budget.
+                if buffer_capacity:
+                    self.provision_ingest += pipeline_demand
                 LOGGER.debug(
                     "Cluster is able to process ingest for observation %s",
                     observation.name)
